@@ -1,4 +1,3 @@
-from functools import lru_cache
 from pathlib import Path
 
 import click
@@ -9,17 +8,30 @@ from ..filtering import filter_names
 
 
 def touch_workflow(endpoints, graph, spec_hashes):
-    @lru_cache(maxsize=None)
-    def _visit(target):
-        for dep in graph.dependencies[target]:
-            _visit(dep)
-
+    def _touch(target):
         spec_hashes.update(target)
         for path in target.flattened_outputs():
             Path(path).touch(exist_ok=True)
 
-    for target in endpoints:
-        _visit(target)
+    # Post-order traversal (dependencies are touched before their dependents)
+    # with an explicit stack instead of recursion: dependency chains can be
+    # thousands of targets deep.
+    visited = set()
+    for endpoint in endpoints:
+        if endpoint in visited:
+            continue
+        visited.add(endpoint)
+        stack = [(endpoint, iter(graph.dependencies[endpoint]))]
+        while stack:
+            target, deps = stack[-1]
+            for dep in deps:
+                if dep not in visited:
+                    visited.add(dep)
+                    stack.append((dep, iter(graph.dependencies[dep])))
+                    break
+            else:
+                stack.pop()
+                _touch(target)
 
 
 @click.command()
